@@ -7,6 +7,7 @@ use super::Type;
 use crate::io::writer::num::{write_u8, write_u32_le, write_uint7};
 
 const NUL: u8 = 0x00;
+const MAX_TOKEN_COUNT: usize = 128;
 
 pub fn encode(mut src: &[u8]) -> io::Result<Vec<u8>> {
     let mut dst = Vec::new();
@@ -34,6 +35,14 @@ pub fn encode(mut src: &[u8]) -> io::Result<Vec<u8>> {
         names_indices.entry(name).or_insert(i);
         max_token_count = max_token_count.max(diff.tokens.len());
         diffs.push(diff);
+    }
+
+    // The decoder keeps a fixed number of tokens per name (including the end token).
+    if max_token_count >= MAX_TOKEN_COUNT {
+        return Err(io::Error::new(
+            io::ErrorKind::InvalidInput,
+            "too many tokens in name",
+        ));
     }
 
     let mut token_writer = TokenWriter::default();
